@@ -15,7 +15,7 @@ core's signal channel) and the two globals instructions of `runtime/execute.go`
   released (V18: `Wait` used to return from the interrupt path holding one).
 * The globals mutex is modelled by its holders (`gWriter`, `gReader`).
 
-`Cfg.fixed` is the code after the fixes V18, V19, V30; the other configurations exist for the
+`Cfg.fixed` is the code after the fixes V18, V19, H1; the other configurations exist for the
 counterexample theorems only.
 -/
 namespace Hms.Conc
@@ -73,7 +73,7 @@ structure Cfg where
   deriving DecidableEq, Repr
 
 /-- The protocol as it is after V18 (no leaked read lock), V19 (buffered signal channels)
-and V30 (core list shortened under the write lock). -/
+and H1 (core list shortened under the write lock). -/
 def Cfg.fixed : Cfg := ⟨true, false, false⟩
 
 def upd {α : Type} (f : Nat → α) (i : Nat) (v : α) : Nat → α := fun j => if j = i then v else f j
